@@ -5,6 +5,7 @@ From Coq.Strings Require Import Byte.
 From SP Require Import Bytes Params Msgpack Crypto Errors Packets Chunker Rand Sign Verify SignProofs SignAuthProofs SignAuthLocated.
 From SP Require Import BaseX Encodings Armor ArmorProofs ArmoredForms.
 From SP Require Import Nonce Packets Signcrypt GoLang GoAst GoAstProofs GoAstProofs2.
+From SP Require Import GoLang2 GoAstSign GoAstProofs6a.
 From Coq Require String.
 Import String.StringSyntax.
 Import ListNotations.
@@ -77,6 +78,50 @@ Theorem C07_armored_form_agrees (c : crypto) (vd : validator) (kr : sigring) (ms
   bind (verify_detached c vd kr msg sigfile) (fun pk => Ok (pk, brand)).
 Proof. exact (armored_verify_detached_agrees c vd kr msg sigfile brand). Qed.
 
+(* ---- source ties: the DETACHED signing sender (/repo/sign_stream.go), lemmas of proofs/GoAstProofs6a.v ---- *)
+(* The terms f_saltpack_newSignDetachedStream and f_saltpack_signDetachedStream_{Write,Close} are generated on
+   every run from the Go syntax trees of /repo/sign_stream.go (gen/GoAstSign.v) and run by the evaluator of
+   model/GoLang2.v (run_func2: outcome AND final environment).  The *signDetachedStream object is [g_sds st],
+   st : sds_state = (encoder, secretKey, the bytes hashed so far = the running SHA-512 state).
+   `encoder.Encode(x)` is interpreted by an ARBITRARY function enc_step : encoder object -> packet bytes ->
+   encoder object' * error, so the theorems hold for every writer, failing or not; a Go error value is
+   [g_errv e], e : gerr = None (nil) or Some (name, arguments). *)
+
+(* newSignDetachedStream(version, w, signer) = sds_new (GoAstProofs6a.v): ErrBadVersion unless known_version,
+   ErrInvalidParameter for a nil signer, ErrRand when the randomness source cannot give 16 bytes, the encoder's
+   error if writing the header packet fails, else the object holding the encoder after the double-encoded header
+   (sig_header_bytes with the detached message type and the nonce drawn), the secret key and the digest state
+   = the header hash.  The process-wide randomness source is not an argument of the Go constructor: r is the
+   stream it will deliver (extern table ext_new ... r).  No hypothesis. *)
+Theorem C07_source_newSignDetachedStream (c : crypto) (enc_step : gval -> bytes -> gval * gerr)
+        (v : version) (w : gval) (signer : option bytes) (r : rng) :
+  fst (run_func2 (ext_new c enc_step r) f_saltpack_newSignDetachedStream [g_version v; w; g_signer signer])
+  = sds_new c enc_step v w signer r.
+Proof. exact (go_newSignDetachedStream c enc_step v w signer r). Qed.
+
+(* s.Write(p) returns (len p, nil) and appends p to the digest state; encoder and key untouched.
+   No hypothesis. *)
+Theorem C07_source_signDetachedStream_Write (c : crypto) (st : sds_state) (p : bytes) :
+  let r := run_func2 (ext_sig c) f_saltpack_signDetachedStream_Write [g_sds st; VBytes p] in
+  fst r = ORet [VInt (Z.of_nat (List.length p)); VNil] /\
+  lookup "s" (snd r) = Some (g_sds (mkSds (sds_enc st) (sds_sk st) (sds_hashed st ++ p))).
+Proof. exact (go_signDetachedStream_Write c st p). Qed.
+
+(* s.Close() returns exactly what encoder.Encode returns on the packet
+   bin(ed_sign secretKey (detached prefix ++ sha512 (bytes hashed))), for EVERY encoder step function — so the
+   packet bytes are pinned down.  No hypothesis.  LIMIT: `return s.encoder.Encode(signature)` is an
+   interface-method call in return position, where the evaluator takes exactly one result and cannot write
+   the encoder back: the encoder state after Close is not expressible; the receiver is shown unchanged. *)
+Theorem C07_source_signDetachedStream_Close (c : crypto) (enc_step : gval -> bytes -> gval * gerr) (st : sds_state) :
+  let r := run_func2 (ext_det_close c enc_step) f_saltpack_signDetachedStream_Close [g_sds st] in
+  let sig := ed_sign c (sds_sk st) (detached_sig_input_from_hash (sha512 c (sds_hashed st))) in
+  fst r = ORet [g_errv (snd (enc_step (sds_enc st) (mp_encode (MBin sig))))] /\
+  lookup "s" (snd r) = Some (g_sds st).
+Proof. exact (go_signDetachedStream_Close c enc_step st). Qed.
+
+Print Assumptions C07_source_newSignDetachedStream.
+Print Assumptions C07_source_signDetachedStream_Write.
+Print Assumptions C07_source_signDetachedStream_Close.
 Print Assumptions C07_armored_form_agrees.
 Print Assumptions C07_source_detachedSignatureInput.
 Print Assumptions C07_source_detachedSignatureInputFromHash.
